@@ -197,7 +197,8 @@ def conts(fam, tier, lo):
     tup_lo = {"join": 0, "try_join": 0, "merge": 0}.get(fam, 1)
     tup = [n for n in ([0, 1, 2, 3, 4, 12] if q else list(range(0, 13))) if n >= max(lo, tup_lo)]
     vec = [n for n in (VEC_Q if q else VEC_T) if n >= lo]
-    out = [("arr", n) for n in arr] + [("tup", n) for n in tup] + [("vec", n) for n in vec]
+    # ("vec", 999): a length drawn per vector by the harness (gen.rs pick_len: 0..130, mostly at block / budget boundaries)
+    out = [("arr", n) for n in arr] + [("tup", n) for n in tup] + [("vec", n) for n in vec] + [("vec", 999)]
     if fam in ("join", "race", "merge", "zip", "chain"):
         out.append(("ext", 2))
     return out
